@@ -162,9 +162,10 @@ func (s *sessionSpec) session() *expect.Session {
 
 func Run(cfg fw.Config, rec *fw.Rec) {
 	log.SetOutput(io.Discard)
-	rec.Rule = "sessions of 1-3 steps, 0-3 expected outputs per step over 6 patterns, inverted outputs, guards {none, accept, reject, accept-if}, run with /bin/cat as the subprocess so that the emitted stream is exactly the session's inputs (duplicates of one expected message while another never arrives, never-arriving messages with 120 ms timeouts, non-JSON noise, messages and noise lines of 4080-70000 bytes around the 4096-byte buffer boundaries; patterns whose source is a JSON string literal ('42', 'true', '[1]', ...), numbers, booleans, arrays against streams of such scalars and their string look-alikes); a third of the passing sessions are run a second time - their outputs now carry recorded bindings - on a stream that meets no expectation and must fail; oracle: Run()==nil implies the reference window model justifies a pass under some resolution; non-trivial = session with >= 2 expected outputs in some step that the tool passed, or any session the tool failed; distinct by session"
-	rec.Required = []string{"tool_passed_and_justified", "tool_failed", "family_duplicate_instead_of_other", "family_rejecting_guard", "family_inverted", "family_never_arrives", "family_noise", "family_long_lines", "family_scalar_patterns", "forbidden_pattern_matching_in_several_ways", "rerun_with_recorded_bindings_failed_as_it_must", "rerun_with_bindings_on_an_inverted_output_failed_as_it_must"}
+	rec.Rule = "sessions of 1-3 steps, 0-3 expected outputs per step over 6 patterns, inverted outputs, guards {none, accept, reject, accept-if}, run with /bin/cat as the subprocess so that the emitted stream is exactly the session's inputs (duplicates of one expected message while another never arrives, never-arriving messages with 120 ms timeouts, non-JSON noise, messages and noise lines of 4080-70000 bytes around the 4096-byte buffer boundaries; patterns whose source is a JSON string literal ('42', 'true', '[1]', ...), numbers, booleans, arrays against streams of such scalars and their string look-alikes); outputs whose guards are ECMAScript sources that are replaced between two runs of one session (or accompanied by a native Guard): the source the output has when it runs decides; a third of the passing sessions are run a second time - their outputs now carry recorded bindings - on a stream that meets no expectation and must fail; oracle: Run()==nil implies the reference window model justifies a pass under some resolution; non-trivial = session with >= 2 expected outputs in some step that the tool passed, or any session the tool failed; distinct by session"
+	rec.Required = []string{"tool_passed_and_justified", "tool_failed", "family_duplicate_instead_of_other", "family_rejecting_guard", "family_inverted", "family_never_arrives", "family_noise", "family_long_lines", "family_scalar_patterns", "forbidden_pattern_matching_in_several_ways", "guard_sources_replaced_between_runs", "rerun_with_recorded_bindings_failed_as_it_must", "rerun_with_bindings_on_an_inverted_output_failed_as_it_must"}
 	rec.Assume = []string{"slowness can only turn a pass into a timeout failure, never the reverse, so load cannot cause a false alarm", "the reference is at least as permissive as the documentation: windows may extend into later steps' lines, a step without positive expectations may or may not consume a line"}
+	guardSources(rec)
 	n := cfg.Pick(1500, 20000)
 	fw.Parallel(cfg.Workers, n, func(w, i int) {
 		r := cfg.Rng("c19", i)
